@@ -12,6 +12,7 @@ import FerretVerif.Drv.RtMap
 import FerretVerif.Drv.Core
 import FerretVerif.Drv.Cfg
 import FerretVerif.Drv.Mut
+import FerretVerif.Drv.Lexer
 
 open FerretVerif
 
@@ -67,6 +68,7 @@ def main (args : List String) : IO UInt32 := do
   | ["core"] => eachLine (cmdCore 20000); return 0
   | ["rt"] => eachLineState ({} : RtState) stepRt; return 0
   | ["depgraph"] => eachLine cmdDepGraph; return 0
+  | ["lex"] => eachLine cmdLex; return 0
   | ["sched"] => eachLine cmdSched; return 0
   | ["toml-fmt"] => eachLine cmdTomlFmt; return 0
   | ["toml-parseval"] => eachLine cmdTomlParseVal; return 0
